@@ -838,8 +838,10 @@ def check(run: Run):
         t0 = time.time()
         if tier == "quick":
             nload = load_C17.validate(run, scratch, "MC_AnnotDb_load_quick.cfg", 0.12)
+            nload += load_C17.validate(run, scratch, "MC_AnnotDb_load_attrs_quick.cfg", 0.15)
         else:
             nload = load_C17.validate(run, scratch, "MC_AnnotDb_load_quick.cfg", 1.0)
+            nload += load_C17.validate(run, scratch, "MC_AnnotDb_load_attrs.cfg", 1.0)
             nload += load_C17.validate(run, scratch, "MC_AnnotDb_load_thorough.cfg", 0.25)
         run.extra["wall_by_phase_s"]["loading"] = round(time.time() - t0, 1)
     acts = dict(totals["byact"])
